@@ -34,7 +34,7 @@ THEOREMS = [
     "C20_text_is_repr_or_template", "C20_text_plain_template", "C20_text_placeholder", "C20_text_spec_on_none_refuted",
     "C20_total_partial", "C20_csv_accepts_escaped_bytes", "C20_csv_total_refuted", "C20_total_lone_surrogate_refuted",
     "C20_normalize_idempotent", "C20_normalize_first_char", "C20_normalize_valid_on_simple_names",
-    "C20_csv_read_back",
+    "C20_valid_name_anchor", "C20_csv_read_back",
 ]
 TS = _pydt.datetime(2020, 1, 2, 3, 4, 5, tzinfo=_pydt.timezone.utc)
 
